@@ -28,34 +28,56 @@ LEVEL_TEXT = ("Lean theorems over the model of buffer_geometry: for time stamps,
               "buffers or reach the domain edge, larger buffers give supersets, a zero buffer changes nothing, a negative buffer "
               "is rejected for every type.  The three closed-form functions (with the real validators of the constructors they "
               "call) and the guard + dispatch of buffer_geometry for all nine type tags are re-derived from the source on each "
-              "run by path-exhaustive symbolic tracing and proved equal to the model for all coordinates and buffers.  For the six "
-              "types buffered through shapely the property is PARTIAL: C11_shapely_partial is conditional on the validator and the "
-              "bounds-level post-condition, which the check evaluates in Lean on every observed result; containment and "
-              "monotonicity of the polygonal result are asked of shapely.")
-LEVEL_NOTE = ("Trusted: Lean kernel, symbolic tracer (ordered-field semantics; data.TimeInterval / data.BoundingBox replaced by "
-              "stubs that run the classes' own field validators on symbolic coordinates; shapely pipeline stubbed in the dispatch "
-              "trace).  Unmodelled: GEOS buffering and the float scale-buffer-unscale-clip pipeline of buffer_shapely_geometry "
-              "(six of nine types): only monitored (validator and bounds post-condition in Lean, containment / superset by "
-              "shapely `covers`, an oracle outside Lean); four classes of failures of that pipeline are recorded as known "
-              "findings.  Binary64 rounding of `t - tb`, `h + fb` off the dyadic grid (round-once comparison there).  Model tied "
-              "to the code by regenerated obligations and generator-bounded correspondence.")
-TECHNIQUE = ("Lean 4 proof over model; symbolic-trace equality obligations regenerated from source; exhaustive-grid "
-             "correspondence at the domain edges; Lean-evaluated post-conditions on real shapely results")
+              "run by path-exhaustive symbolic tracing and proved equal to the model for every valid geometry and all buffers.  "
+              "For the six types buffered through shapely the pipeline of buffer_shapely_geometry is modelled on point sets "
+              "with GEOS's buffer as a parameter: its straight-line skeleton (the two scale factors incl. the 1e9 of a zero "
+              "buffer, the coordinate maps, the buffer distance, the clip rectangle) is re-derived from the source by symbolic "
+              "tracing with shapely stubbed and proved equal to the model for all inputs; the C11_pipeline_* theorems prove that "
+              "the result stays in the domain (unconditionally), that the clip only removes what is outside the domain, that "
+              "it contains the original (if GEOS's buffer contains its input), that it contains everything within rho buffer "
+              "widths of the original and its bounds extend by rho buffers or reach the domain edge (if GEOS's buffer contains "
+              "the rho-disc around every input point), and - for the exact unit buffer - that the result is exactly the "
+              "elliptical neighbourhood inside the domain and that larger buffers give supersets except a zero buffer against "
+              "a positive one below 1e-9 (proved to fail; a known finding).  The property stays PARTIAL for these six types: "
+              "GEOS's buffer itself is not modelled; its contracts are evaluated on GEOS's actual output in every run, and "
+              "validator, bounds post-condition (C11_shapely_partial), containment and superset are monitored on the result.")
+LEVEL_NOTE = ("Trusted: Lean kernel, symbolic tracer (ordered-field semantics; the nine geometry classes replaced by stubs that "
+              "run TimeInterval's / BoundingBox's own field validators on symbolic coordinates; in the pipeline trace shapely, "
+              "json and the coordinate arrays are replaced by symbolic stand-ins that see a shape through a generic point and "
+              "its bounding box).  Unmodelled: GEOS's buffer (offset curves, round caps as 32-gons, mitre joins, input "
+              "simplification) and clip_by_rect as polygon algorithms, binary64 rounding inside the pipeline: the theorems "
+              "assume `Extensive`, `CoversDisc rho`, `IsMaxTime`, evaluated per call on what GEOS returned (rho = 0.98 at probe "
+              "points around the vertices) for inputs outside the known-finding classes; containment / superset by shapely "
+              "`covers` (an oracle outside Lean); six classes of failures of the pipeline are recorded as known findings.  "
+              "Binary64 rounding of `t - tb`, `h + fb` off the dyadic grid (round-once comparison there).  Model tied to the "
+              "code by regenerated obligations, observed calls into shapely and generator-bounded correspondence.")
+TECHNIQUE = ("Lean 4 proof over model; symbolic-trace equality obligations regenerated from source (closed forms, dispatch, "
+             "pipeline skeleton); exhaustive-grid correspondence at the domain edges; observed shapely calls compared with the "
+             "model; Lean-evaluated post-conditions and run-time GEOS contracts on real results")
 RULE = ("time stamps / intervals / boxes on exhaustive small grids touching time 0, frequency 0 and MAX_FREQUENCY x buffers "
         "{negative, 0, small, clamping, larger than the domain}, random dyadic and arbitrary-float cases; the six shapely-"
-        "buffered types (random, special, domain-edge) x buffer pairs over six decades of buffer/extent; non-trivial = "
-        "buffer_geometry returned a geometry; distinct = distinct (operation, input)")
+        "buffered types (random, special, domain-edge) x buffer pairs over six decades of buffer/extent, zero buffers, buffers "
+        "down to 1e-7; buffers passed as float, int or numpy scalar; every call preceded by a call on the same object with "
+        "other buffers and followed by a repeat (purity); non-trivial = buffer_geometry returned a geometry; distinct = "
+        "distinct (operation, input)")
 TRUSTED = ["pydantic's coercion of the coordinate list before the field validators run (the validators themselves are traced)",
-           "shapely `covers` / `difference` / `distance` as the containment and superset oracle for polygonal results",
-           "symbolic tracer stubs: data.TimeInterval / data.BoundingBox -> record of the validated symbolic coordinates, "
-           "geometry_to_shapely + buffer_shapely_geometry -> marker carrying the two buffers"]
+           "shapely `covers` / `difference` / `distance` / `contains_xy` as the containment, superset and disc-contract oracle",
+           "symbolic tracer stubs: data.<Geometry> -> record of the (validated) symbolic coordinates; geometry_to_shapely + "
+           "buffer_shapely_geometry -> marker carrying the two buffers (dispatch trace); shapely.transform / buffer / "
+           "clip_by_rect / to_geojson, json.loads -> stand-ins acting on a generic point and a bounding box (pipeline trace; "
+           "a coordinate map is applied to the box corners, right for the increasing maps C11_pipeline_scaling proves them to be)",
+           "the spy around the `shapely` module seen by soundevent.geometry.operations (forwards every call unchanged)"]
 ASSUMPTIONS = ["binary64 arithmetic is exact on the dyadic grids used",
                "ordered-field semantics for the symbolic ties (no rounding)",
                "hypotheses of C11_shapely_partial (result is a Polygon / MultiPolygon, passes the validator, its bounds satisfy "
-               "bufferPost) are evaluated in Lean on every observed result of the pipeline"]
+               "bufferPost) are evaluated in Lean on every observed result of the pipeline",
+               "hypotheses of the C11_pipeline_* theorems about GEOS's buffer (Extensive, CoversDisc 49/50 at 32 probe "
+               "directions around up to 8 vertices, IsMaxTime) are evaluated on GEOS's output in every observed call with "
+               "positive buffers, no exact line reversal, buffer/extent < 1e4"]
 NOT_COMPARED = ["error messages (only the error class)",
                 "the vertices of the polygon the shapely pipeline returns (only validator, bounds, containment, superset)",
                 "OGC validity of the returned polygon",
+                "cap / join style and the margin added to max_time in the clip rectangle (only that it is >= 0)",
                 "line strings / polygons with a buffer more than 10^4 times their extent (GEOS simplifies the input by 1 % of "
                 "the buffer distance; one such case is in the corpus as a known finding)"]
 
@@ -72,11 +94,11 @@ def _f(s):
 
 
 # ---------------------------------------------------------------- implementation adapters
-def _arg(s, salt):
-    """the buffer as the caller may pass it: float, int (when integral) or numpy scalar -- chosen from the input
-    itself, so a replay passes the same representation"""
-    q = frac(s)
-    h = zlib.crc32((str(s) + salt).encode())
+def _arg(inp, key, salt):
+    """the buffer as the caller may pass it: float, int (when integral) or numpy scalar -- chosen from the whole
+    input, so a replay passes the same representation and the same value is seen in all of them over a run"""
+    q = frac(inp[key])
+    h = zlib.crc32((jkey(inp) + salt).encode())
     if q.denominator == 1 and h % 3 == 0:
         return int(q)
     if h % 3 == 1:
@@ -87,7 +109,7 @@ def _arg(s, salt):
 
 def _call(d, inp, k1="tb", k2="fb"):
     from soundevent.geometry import buffer_geometry
-    return buffer_geometry(d, time_buffer=_arg(inp[k1], "t"), freq_buffer=_arg(inp[k2], "f"))
+    return buffer_geometry(d, time_buffer=_arg(inp, k1, "t"), freq_buffer=_arg(inp, k2, "f"))
 
 
 def _buffer(inp):
@@ -332,6 +354,13 @@ def _ratio(inp):
     return out
 
 
+def _zero_axis_max(inp):
+    """largest coordinate along the axes whose buffer is exactly zero (these are multiplied by 1e9)"""
+    from soundevent.geometry import compute_bounds
+    b = compute_bounds(gen_geom.to_data(inp["g"]))
+    return max([b[2]] * (frac(inp["tb"]) == 0) + [b[3]] * (frac(inp["fb"]) == 0) + [0.0])
+
+
 def _has_reversal(gj):
     """a vertex at which a line string turns back on itself exactly (collinear, opposite direction)"""
     lines = [gj["coordinates"]] if gj["type"] == "LineString" else gj["coordinates"] if gj["type"] == "MultiLineString" else []
@@ -349,7 +378,8 @@ def _holds_shapely(ctx, inp, io):
     tb, fb = frac(inp["tb"]), frac(inp["fb"])
     if tb < 0 or fb < 0:
         return None if io.get("raise") == "invalid" else "a negative buffer was not rejected with ValueError"
-    facts = f"type={inp['g']['type']} zero_buffer={tb == 0 or fb == 0} reversal={_has_reversal(inp['g'])} ratio={_ratio(inp):.3e}"
+    facts = (f"type={inp['g']['type']} zero_buffer={tb == 0 or fb == 0} reversal={_has_reversal(inp['g'])} "
+             f"ratio={_ratio(inp):.3e} zero_axis_max={_zero_axis_max(inp):.3e}")
     if "val" not in io:
         return f"buffer_geometry raised {io.get('raise')} on a valid geometry with non-negative buffers; {facts}"
     if io.get("impure"):
@@ -497,8 +527,9 @@ def _m_zero_buffer(f, m):
     d = f.detail
     if f.kind != "property" or _fact(d, "zero_buffer") != "True":
         return False
-    if "raised key on" in d:
-        return True
+    if "raised key on" in d:      # GEOS returned an empty buffer: only where the scaled coordinates are huge
+        z = _num(d, "zero_axis_max")
+        return z is not None and z >= float(Fraction(m.get("min_key_coordinate", "0")))
     sf = _num(d, "max_shortfall")
     return sf is not None and 0 < sf <= float(Fraction(m["max_shortfall"]))
 
@@ -530,7 +561,17 @@ def _m_monotone_mitre(f, m):
             and 0 < ex <= float(Fraction(m["max_excess"])))
 
 
-FINDING_MATCHERS = {"approx_shortfall": _m_approx_shortfall, "zero_buffer": _m_zero_buffer,
+def _m_zero_vs_tiny(f, m):
+    """a zero buffer acts as the buffer 1e-9 (factor 1e9): the result for a positive buffer below 1e-9 is smaller"""
+    d = f.detail
+    ex = _num(d, "excess")
+    if f.kind not in ("property", "correspondence") or ex is None or _fact(d, "zero_vs_tiny") != "True" or not f.inp:
+        return False
+    tiny = [frac(f.inp[b]) for a, b in (("tb", "tb2"), ("fb", "fb2")) if frac(f.inp[a]) == 0 and 0 < frac(f.inp[b]) < ZERO_AS]
+    return 0 < ex <= 1.001 * sum(float(ZERO_AS / t) for t in tiny)
+
+
+FINDING_MATCHERS = {"zero_vs_tiny": _m_zero_vs_tiny, "approx_shortfall": _m_approx_shortfall, "zero_buffer": _m_zero_buffer,
                     "line_reversal": _m_line_reversal, "huge_ratio": _m_huge_ratio, "monotone_mitre": _m_monotone_mitre}
 
 
@@ -841,6 +882,8 @@ def _pipeline_thunk(ops, kind, tb, fb):
             for n, v in saved.items():
                 if v is not None:
                     setattr(ops, n, v)
+                elif hasattr(ops, n):
+                    delattr(ops, n)
         if not isinstance(out, _Built) or out.type != kind or not isinstance(out.coordinates, _SymShape):
             raise TypeError(f"a clipped {kind} was not returned as data.{kind}")
         if "buffer" not in log or "clip" not in log:
@@ -1015,6 +1058,22 @@ def shapely_cases(rng, n):
         yield _case(g, tb, fb)
 
 
+def tiny_buffer_cases(rng, n):
+    """buffers far below the geometry's extent (1e-7 .. 1e-3 of a unit), on small coordinates where binary64
+    still resolves them"""
+    for i in range(n):
+        g = _norm(gen_geom.gen_valid(rng, SHAPELY[i % 6], tmax=8.0, fmax=8.0, k=3))
+        if g["type"] in ("Polygon", "MultiPolygon") and not gen_geom.is_simple(g):
+            continue
+        tb = Fraction(rng.randint(1, 1 << 10), 1 << rng.choice([20, 24, 28, 33]))
+        fb = Fraction(rng.randint(1, 1 << 10), 1 << rng.choice([20, 24, 28, 33]))
+        if i % 4 == 0:
+            fb = _buffers_for(rng, g)[1]
+        elif i % 4 == 1:
+            tb = _buffers_for(rng, g)[0]
+        yield _case(g, tb, fb)
+
+
 def zero_buffer_cases(rng, n):
     """one buffer (or both) exactly zero: the factor-1e9 branch of the pipeline"""
     geoms = shapely_special_geometries()
@@ -1034,6 +1093,23 @@ def monotone_cases(rng, n):
             continue
         k1, k2 = rng.choice([(1, 1), (1, Fraction(3, 2)), (Fraction(3, 2), 1), (4, 4), (Fraction(1025, 1024), 1), (2, 1), (1, 8)])
         yield {"g": c["g"], "tb": c["tb"], "fb": c["fb"], "tb2": rat(tb * k1), "fb2": rat(fb * k2)}
+
+
+def monotone_zero_cases(rng, n):
+    """the smaller pair has a zero buffer (the factor 1e9, which acts as the buffer 1e-9): against the same pair,
+    and against a positive buffer of at least 1e-9 on that axis (hypotheses `hzt`, `hzf` of
+    C11_pipeline_monotone_ideal); small coordinates, where 1e-9 is still resolved"""
+    for i in range(n):
+        g = _norm(gen_geom.gen_valid(rng, SHAPELY[i % 6], tmax=8.0, fmax=8.0, k=3))
+        if g["type"] in ("Polygon", "MultiPolygon") and not gen_geom.is_simple(g):
+            continue
+        tb, fb = _buffers_for(rng, g, decades=(-1, 1))
+        up = rng.choice([Fraction(0), Fraction(1, 10 ** 9), Fraction(1, 1 << 20), Fraction(1, 8), Fraction(2)])
+        k = rng.choice([1, Fraction(3, 2), 4])
+        if i % 2:
+            yield {"g": g, "tb": "0", "fb": rat(fb), "tb2": rat(up), "fb2": rat(fb * k)}
+        else:
+            yield {"g": g, "tb": rat(tb), "fb": "0", "tb2": rat(tb * k), "fb2": rat(up)}
 
 
 def valid_cases(rng, results, n):
@@ -1129,13 +1205,19 @@ def _shapely_stage(ctx):
     zc = list(zero_buffer_cases(ctx.rng, ctx.budget(360, 3600)))
     ctx.tally("shapely:zero-buffer", len(zc))
     ctx.run_cases(OPS["buffer_shapely"], zc)
-    ctx.run_cases(OPS["pipeline_args"], cases + zc)
+    tc = list(tiny_buffer_cases(ctx.rng, ctx.budget(240, 2400)))
+    ctx.tally("shapely:tiny-buffer", len(tc))
+    ctx.run_cases(OPS["buffer_shapely"], tc)
+    ctx.run_cases(OPS["pipeline_args"], cases + zc + tc)
     results = [v for v in list(_LIB_CACHE.values())[:ctx.budget(150, 1500)] if v]
     ctx.run_cases(OPS["valid"], valid_cases(ctx.rng, results, ctx.budget(180, 2700)))
 
 
 def _monotone_stage(ctx):
     ctx.run_cases(OPS["monotone_shapely"], monotone_cases(ctx.rng, ctx.budget(1200, 12000)))
+    zc = list(monotone_zero_cases(ctx.rng, ctx.budget(180, 1800)))
+    ctx.tally("monotone:zero-buffer", len(zc))
+    ctx.run_cases(OPS["monotone_shapely"], zc)
 
 
 def run(ctx):
@@ -1153,4 +1235,5 @@ def search(ctx, failures):
     """a tie broke: the exhaustive edge grid and a wide random stream of every operation"""
     ctx.stage("search-closed", lambda: ctx.run_cases(OPS["buffer_closed"], list(closed_grid_cases())
                                                      + list(closed_random_cases(ctx.rng, 6000))))
-    ctx.stage("search-shapely", lambda: ctx.run_cases(OPS["buffer_shapely"], list(shapely_cases(ctx.rng, 900))))
+    ctx.stage("search-shapely", lambda: ctx.run_cases(OPS["buffer_shapely"], list(shapely_cases(ctx.rng, 900))
+                                                      + list(zero_buffer_cases(ctx.rng, 120)) + list(tiny_buffer_cases(ctx.rng, 120))))
